@@ -22,11 +22,11 @@ type c08Cell struct {
 	Backend  string `json:"backend"`
 	Batch    string `json:"batch"` // none | expireall | deleteall | cleanup | evict | walk
 	Strategy int    `json:"strategy"`
-	A        []int  `json:"a"`             // thread A program (op indices)
-	NB       int    `json:"nb"`            // length of thread B programs enumerated inside the cell
-	C        bool   `json:"c,omitempty"`   // a third single-op thread is enumerated too
-	Unb      bool   `json:"unb,omitempty"` // all interleavings (unbounded, HB cached) instead of preemption bound 2
-	Unl      bool   `json:"unl,omitempty"` // the cache is configured with UnlimitedTTL (entries never expire on their own)
+	A        []int  `json:"a"`              // thread A program (op indices)
+	NB       int    `json:"nb"`             // length of thread B programs enumerated inside the cell
+	C        bool   `json:"c,omitempty"`    // a third single-op thread is enumerated too
+	Unb      bool   `json:"unb,omitempty"`  // all interleavings (unbounded, HB cached) instead of preemption bound 2
+	Unl      bool   `json:"unl,omitempty"`  // the cache is configured with UnlimitedTTL (entries never expire on their own)
 	Coll     bool   `json:"coll,omitempty"` // k0 and k1 have the SAME 64-bit hash (slot model, shared with C09)
 }
 
